@@ -44,7 +44,7 @@ def random_config(rng, profile):
     return {
         'hash': rng.choice(['sha256', 'sha1']),
         'prefix': rng.choice([0, 1, 2, 2, 3]),
-        'zlevel': rng.choice([1, 1, 6, 9]) if profile != 'C10' else rng.randint(1, 9),
+        'zlevel': rng.choice([1, 1, 6, 9]) if profile != 'C10' else (rng.randint(1, 9) if common.tier() == 'thorough' else rng.choice([1, 3, 6, 9])),
         'target': target,
     }
 
@@ -518,20 +518,53 @@ def write_cfg(path, invariants):
         handle.write('CHECK_DEADLOCK FALSE\n')
 
 
-def monitor(traces, invariants, workdir):
-    """Run TLC over the recorded traces.  Returns (result, list of (invariant, tid, line))."""
-    table, full = contents()
+def _monitor_batch(job):
+    batch, invariants, offset = job
+    _table, full = contents()
     header = {'kind': 'header', 'universe': UNIVERSE, 'sizes': {k: len(v) for k, v in full.table.items()}}
-    trace_file = os.path.join(workdir, 'traces.ndjson')
-    with open(trace_file, 'w', encoding='utf8') as handle:
-        handle.write(json.dumps(header) + '\n')
-        for trace in traces:
-            handle.write(json.dumps({'tid': trace['tid'], 'cfg': trace['cfg'], 'lines': trace['lines']}) + '\n')
-    cfg = os.path.join(workdir, 'SeqTrace.cfg')
-    write_cfg(cfg, invariants)
-    res = tlc.run('SeqTrace', cfg, workers=1, timeout=1500, args=['-continue'], env={'TRACE_FILE': trace_file})
-    hits = parse_violations(res.output)
+    with common.scratch('monb') as workdir:
+        trace_file = os.path.join(workdir, 'traces.ndjson')
+        with open(trace_file, 'w', encoding='utf8') as handle:
+            handle.write(json.dumps(header) + '\n')
+            for trace in batch:
+                handle.write(json.dumps({'tid': trace['tid'], 'cfg': trace['cfg'], 'lines': trace['lines']}) + '\n')
+        cfg = os.path.join(workdir, 'SeqTrace.cfg')
+        write_cfg(cfg, invariants)
+        res = tlc.run('SeqTrace', cfg, workers=1, timeout=2400, args=['-continue'], env={'TRACE_FILE': trace_file})
+    hits = [(inv, tid + offset, line) for inv, tid, line in parse_violations(res.output)]
     return res, hits
+
+
+class _Merged:
+    """Aggregate of the TLC results of the monitor batches (same interface as TlcResult where it is used)."""
+
+    def __init__(self, results):
+        self.distinct = sum(r.distinct for r in results)
+        self.generated = sum(r.generated for r in results)
+        self.timeout = any(r.timeout for r in results)
+        self.error_lines = [ln for r in results for ln in r.error_lines]
+        self.violated = [v for r in results for v in r.violated]
+        self.output = '\n'.join(r.output[-3000:] for r in results if r.error_lines or r.timeout)
+        self.wall = max([r.wall for r in results] or [0])
+        self.returncode = max([r.returncode or 0 for r in results] or [0])
+        self.parts = len(results)
+        self._summary = results[0].summary() if results else {}
+
+    def summary(self):
+        out = dict(self._summary)
+        out.update({'generated': self.generated, 'distinct': self.distinct, 'violated': sorted(set(self.violated)),
+                    'batches': self.parts, 'wall_s': round(self.wall, 2), 'timeout': self.timeout})
+        return out
+
+
+def monitor(traces, invariants, workdir, batch_size=250):  # pylint: disable=unused-argument
+    """Run TLC over the recorded traces (in batches, in parallel).  Returns (result, [(invariant, tid, line)])."""
+    jobs = []
+    for start in range(0, len(traces), batch_size):
+        jobs.append((traces[start:start + batch_size], invariants, start))
+    outcomes = common.pmap(_monitor_batch, jobs, procs=8)
+    hits = [hit for _res, part in outcomes for hit in part]
+    return _Merged([res for res, _ in outcomes]), hits
 
 
 _RE_VIOL = re.compile(r'Error: Invariant (\w+) is violated')
